@@ -51,9 +51,24 @@ var sh2 *agent.Agent
 
 // ---------------------------------------------------------------- fake ClickHouse
 
+// what the fake ClickHouse (or a balancer in front of it) answers to the next INSERTs
+type chKind struct {
+	name   string
+	status int  // 0 = read the body, then close the connection without any answer
+	header bool // X-ClickHouse-Exception-Code present
+}
+
+var chKinds = []chKind{
+	{"200", 200, false}, {"200x", 200, true}, // accepted
+	{"500x", 500, true}, {"500", 500, false}, {"502", 502, false}, {"503", 503, false}, {"504", 504, false}, {"413", 413, false},
+	{"reset", 0, false},
+}
+
+func (k chKind) accepted() bool { return k.status == 200 }
+
 type fakeCH struct {
 	mu   sync.Mutex
-	ok   bool
+	kind chKind
 	log  []chInsert
 	srv  *httptest.Server
 	base uint32
@@ -66,7 +81,7 @@ type chInsert struct {
 var markerRe = regexp.MustCompile(`c01m(\d+)e`)
 
 func newFakeCH(base uint32) *fakeCH {
-	f := &fakeCH{ok: true, base: base}
+	f := &fakeCH{kind: chKinds[0], base: base}
 	f.srv = httptest.NewServer(http.HandlerFunc(func(w http.ResponseWriter, r *http.Request) {
 		body, _ := io.ReadAll(r.Body)
 		set := map[int]bool{}
@@ -80,16 +95,26 @@ func newFakeCH(base uint32) *fakeCH {
 		}
 		sort.Ints(secs)
 		f.mu.Lock()
-		ok := f.ok
-		f.log = append(f.log, chInsert{ok: ok, secs: secs})
+		kind := f.kind
+		// the INSERT took effect iff this endpoint read the whole body and answered 200 - nothing else (headers, texts) counts
+		f.log = append(f.log, chInsert{ok: kind.accepted(), secs: secs})
 		f.mu.Unlock()
+		if kind.status == 0 {
+			if hj, ok := w.(http.Hijacker); ok {
+				if conn, _, err := hj.Hijack(); err == nil {
+					_ = conn.Close()
+					return
+				}
+			}
+			panic(http.ErrAbortHandler)
+		}
 		w.Header().Set("Connection", "close")
-		if ok {
-			w.WriteHeader(200)
-		} else {
+		if kind.header {
 			w.Header().Set("X-ClickHouse-Exception-Code", "241")
-			w.WriteHeader(500)
-			_, _ = w.Write([]byte("Code: 241. DB::Exception: Memory limit exceeded (verif)"))
+		}
+		w.WriteHeader(kind.status)
+		if kind.status != 200 {
+			_, _ = w.Write([]byte("Code: 241. DB::Exception: Memory limit exceeded (verif) / <html>bad gateway</html>"))
 		}
 	}))
 	return f
@@ -204,7 +229,7 @@ type caseRun struct {
 	parkedAt map[int64]int
 	secOfRid map[int64]int
 	oowPrev int64
-	ballastUnits, ballastBytes, unit, limit int // historic memory budget: model units <-> real bytes
+	ballastUnits, ballastBytes, unit, row, limit int // historic memory budget: model units <-> real bytes
 	diskOk bool
 	trueUsedPrev, counterPrev int // before the current op: real queued bytes + ballast, and the agent's counter
 	accountingReported bool
@@ -247,7 +272,8 @@ func (c *caseRun) newAgent() {
 	c.ag = a
 	// the model's limit is 1000 units of one second's data; the real limit is a 50 MiB constant: fill the difference
 	if c.unit == 0 {
-		c.unit = c.mkCbd(B).Len()
+		c.unit = c.mkCbd(B).Len() // B % 3 == 0: the base bucket
+		c.row = c.mkCbd(B+1).Len() - c.unit
 	}
 	c.limit = a.MemLimit()
 	c.ballastUnits = 0
@@ -257,15 +283,23 @@ func (c *caseRun) newAgent() {
 	c.trueUsedPrev, c.counterPrev = c.ballastBytes, c.ballastBytes
 }
 
+// size in bytes of the framed data of second t: the base bucket plus t%3 further rows (SH.Delivery.dataSize)
+func (c *caseRun) size(t int) int { return c.unit + (t%3)*c.row }
+
 func (c *caseRun) mkCbd(t int) agent.VerifC01Cbd {
 	a := c.abs(t)
 	item := tlstatshouse.MultiItem{Metric: 424242, Keys: []int32{0, 7}}
 	item.SetSkeys([]string{"", "", fmt.Sprintf("c01m%de", a)})
 	item.Tail.SetCounter(3, &item.FieldsMask)
 	sb := tlstatshouse.SourceBucket3{Metrics: []tlstatshouse.MultiItem{item}}
+	for j := 0; j < t%3; j++ { // seconds differ in size: what follows a big second in the historic queue may be smaller
+		extra := tlstatshouse.MultiItem{Metric: 424243 + int32(j), Keys: []int32{0, 7, 11, 13}}
+		extra.Tail.SetCounter(5, &extra.FieldsMask)
+		sb.Metrics = append(sb.Metrics, extra)
+	}
 	cbd := agent.VerifC01MakeCbd(a, &sb)
-	if c.unit != 0 && cbd.Len() != c.unit {
-		c.fatal = fmt.Sprintf("generated seconds differ in size (%d vs %d): memory units undefined", cbd.Len(), c.unit)
+	if c.unit != 0 && c.row != 0 && cbd.Len() != c.size(t) {
+		c.fatal = fmt.Sprintf("generated second %d has %d bytes, expected %d: sizes are not the function of the second the model uses", t, cbd.Len(), c.size(t))
 	}
 	return cbd
 }
@@ -460,10 +494,7 @@ func (c *caseRun) state() {
 	}
 	oow := c.oowPrev + c.ag.OutOfWindowDropped()
 	used := c.ag.HistoricDataSize() - c.ballastBytes
-	mem := strconv.Itoa(used / c.unit)
-	if used%c.unit != 0 || used < 0 {
-		mem = fmt.Sprintf("%d+%d", used/c.unit, used%c.unit)
-	}
+	mem := strconv.Itoa(used)
 	if real := c.ag.QueueDataBytes(); real != used && !c.accountingReported {
 		c.accountingReported = true
 		c.viol("historic-size-accounting", "historicBucketsDataSize accounts %d bytes of queued bucket data but the historic queue holds %d bytes (limit %d, other data %d): the memory limit no longer measures memory", used, real, c.limit, c.ballastBytes)
@@ -519,10 +550,10 @@ func (c *caseRun) checkForgotten(opName string, ackedSec int, acked bool, restar
 			c.excused[s] = "memory-only at agent stop"
 		case oowNow > oowBefore && s < B-agentRel-window+200:
 			c.excused[s] = "agent: out of historic window"
-		case (!c.disk || !c.diskOk) && c.trueUsedPrev+c.unit > c.limit:
+		case (!c.disk || !c.diskOk) && c.trueUsedPrev+c.size(s) > c.limit:
 			c.excused[s] = "agent: memory limit reached and no disk copy"
 			c.stat("drop.memory-limit")
-		case (!c.disk || !c.diskOk) && c.counterPrev+c.unit > c.limit:
+		case (!c.disk || !c.diskOk) && c.counterPrev+c.size(s) > c.limit:
 			c.viol("false-memory-limit-drop", "after %q second %d (no disk copy, not acknowledged) was thrown away as 'memory limit' although the queue held %d bytes + %d other of %d allowed (the agent's counter said %d)", opName, s, c.trueUsedPrev-c.ballastBytes, c.ballastBytes, c.limit, c.counterPrev)
 		default:
 			c.viol("forgot-without-ack", "after %q the agent no longer holds second %d (not in queue, disk cache or a sender) although no aggregator acknowledged it", opName, s)
@@ -565,15 +596,16 @@ func (c *caseRun) doRecv(rid int64) {
 	c.stat("recv.answer." + a.why)
 }
 
-func (c *caseRun) doTick(r int, now int, ok bool) {
-	c.op("tick %d %d %d", r, now, b01(ok))
+func (c *caseRun) doTick(r int, now int, kind chKind) {
+	ok := kind.accepted() // what the current sendToClickhouse makes of it: err == nil iff HTTP status 200
+	c.op("tick %d %d %d %s", r, now, b01(ok), kind.name)
 	g := c.aggs[r]
 	if g == nil {
 		c.obs("none")
 		return
 	}
 	c.ch.mu.Lock()
-	c.ch.ok = ok
+	c.ch.kind = kind
 	c.ch.mu.Unlock()
 	if !ok {
 		c.nFaults++
@@ -597,7 +629,7 @@ func (c *caseRun) doTick(r int, now int, ok bool) {
 				c.insertedOK[s]++
 			}
 		}
-		c.stat(fmt.Sprintf("insert.ok%d", b01(ok)))
+		c.stat("insert." + kind.name)
 	}
 	as := g.Answers()
 	sort.Slice(as, func(i, j int) bool { return as[i].Rid < as[j].Rid })
@@ -660,6 +692,19 @@ func (c *caseRun) doDrop(rid int64) {
 	delete(c.parkedAt, rid)
 	c.deliver("drop", f, answer{err: errConn}, false)
 }
+
+// number of historic senders busy in an rpc (the agent has historicSenders of them per shard; each owns one scratch pad)
+func (c *caseRun) busyHistoric() int {
+	n := 0
+	for _, f := range c.flights {
+		if f.historic {
+			n++
+		}
+	}
+	return n
+}
+
+const historicSenders = 2
 
 func (c *caseRun) doPop(now int) {
 	c.op("pop %d", now)
@@ -778,11 +823,11 @@ func (c *caseRun) doAgentRestart(crash bool) {
 // other queued data now takes k of the 1000 units of the historic memory budget
 func (c *caseRun) doBallast(k int) {
 	c.op("ballast %d", k)
-	nb := c.limit - (1000-k)*c.unit
+	nb := c.limit - 1000*c.unit + k // k bytes of the model's 1000*unit byte budget
 	c.ag.AddHistoricDataSize(nb - c.ballastBytes)
 	c.ballastUnits, c.ballastBytes = k, nb
 	c.trueUsedPrev, c.counterPrev = c.ballastBytes+c.ag.QueueDataBytes(), c.ag.HistoricDataSize()
-	c.stat(fmt.Sprintf("ballast.room%d", 1000-k))
+	c.stat(fmt.Sprintf("ballast.room%d", (1000*c.unit-k)/c.unit))
 }
 
 func (c *caseRun) doDiskOk(b bool) {
@@ -928,7 +973,13 @@ func (c *caseRun) run(quickOps int) {
 		case 3:
 			r := c.r.Intn(3)
 			c.vt += c.r.Intn(3)
-			c.doTick(r, c.vt+c.r.Intn(2), !c.r.Chance(1, 4))
+			kind := chKinds[0]
+			if c.r.Chance(1, 4) {
+				kind = chKinds[2+c.r.Intn(len(chKinds)-2)]
+			} else if c.r.Chance(1, 8) {
+				kind = chKinds[1]
+			}
+			c.doTick(r, c.vt+c.r.Intn(2), kind)
 		case 4:
 			if len(answers) == 0 {
 				continue
@@ -940,6 +991,9 @@ func (c *caseRun) run(quickOps int) {
 			}
 			c.doDrop(c.flights[c.r.Intn(len(c.flights))].rid)
 		case 6:
+			if c.busyHistoric() >= historicSenders {
+				continue
+			}
 			now := B - agentRel
 			if q := c.ag.Queue(); len(q) != 0 && c.r.Chance(1, 5) {
 				now = c.rel(q[0].Time) - []int{0, 1, 121, 122, 123, -1}[c.r.Intn(6)]
@@ -960,7 +1014,8 @@ func (c *caseRun) run(quickOps int) {
 			if c.r.Chance(1, 3) {
 				c.doDiskOk(!c.diskOk)
 			} else {
-				c.doBallast([]int{0, 1000, 1000, 999, 998, 995}[c.r.Intn(6)])
+				L := 1000 * c.unit
+				c.doBallast([]int{0, L, L, L - c.unit, L - c.unit - c.row, L - 2*c.unit - 3*c.row, L - 5*c.unit}[c.r.Intn(7)])
 			}
 		case 11:
 			c.doBad(c.r.Intn(3), c.r.Intn(3))
@@ -1008,7 +1063,7 @@ func (c *caseRun) finish() {
 		}
 		c.vt += 3
 		for r := 0; r < 3; r++ {
-			c.doTick(r, c.vt, true)
+			c.doTick(r, c.vt, chKinds[0])
 			c.state()
 		}
 		for _, rid := range c.answerKeys() {
@@ -1016,7 +1071,7 @@ func (c *caseRun) finish() {
 			c.state()
 		}
 		for k := 0; k < 30; k++ {
-			if len(c.ag.Queue()) == 0 {
+			if len(c.ag.Queue()) == 0 || c.busyHistoric() >= historicSenders {
 				break
 			}
 			n := len(c.lines)
@@ -1352,6 +1407,12 @@ func gen() {
 	}
 	fmt.Printf("/-- functions of agent_shard_send.go that call s.cond.Signal() / s.cond.Broadcast(), source order -/\n")
 	fmt.Printf("def condSignalSites : List String := %s\n", leanList(sites))
+	// sizes of the seconds the harness generates (stored frame: independent of the timestamp's digits)
+	gc := &caseRun{base: 1700000000, stats: map[string]int64{}}
+	u0 := gc.mkCbd(B).Len()
+	fmt.Printf("/-- bytes of the framed data of a generated second with t %% 3 = 0, and of each further row -/\n")
+	fmt.Printf("def secBase : Nat := %d\n", u0)
+	fmt.Printf("def secRow : Nat := %d\n", gc.mkCbd(B+1).Len()-u0)
 	fmt.Println()
 	fmt.Println("end SH.Gen.C01")
 }
